@@ -149,7 +149,7 @@ func Gen(t *rapid.T, max int) []Mut {
 		case "zero":
 			m.Off = rapid.IntRange(0, 200).Draw(t, "off")
 			m.N = rapid.IntRange(1, 64).Draw(t, "n")
-		case "shrink": // the payload of a non-container box cut to Off bytes (parents fixed up)
+		case "shrink": // the payload of a box cut to Off bytes (parents fixed up; containers only within their first 16 bytes)
 			m.Off = rapid.OneOf(rapid.IntRange(0, 12), rapid.IntRange(0, 64)).Draw(t, "keep")
 		case "emptytable": // entry count at payload offset Off set to 0 and the box cut right behind it (parents fixed up)
 			m.Off = rapid.SampledFrom([]int{4, 4, 4, 8, 12, 12, 16, 0}).Draw(t, "off")
@@ -380,7 +380,9 @@ func Apply(seed []byte, muts []Mut) []byte {
 			binary.BigEndian.PutUint32(data[cut-4:], 0)
 			data = append(data[:cut], data[b.End():]...)
 		case "shrink":
-			if b == nil || b.ToEnd || b.PayloadStart()+m.Off >= b.End() || boxwalk.IsContainer(b.Type) {
+			if b == nil || b.ToEnd || b.PayloadStart()+m.Off >= b.End() || (boxwalk.IsContainer(b.Type) && m.Off > 16) {
+				// a container is only cut inside its first bytes (the fixed fields of stsd, dref, meta, trep and
+				// sample entries, or the header of a first child)
 				continue
 			}
 			cut := b.PayloadStart() + m.Off
